@@ -21,6 +21,7 @@ MODULES = [
     "contracts.dbquery",
     "contracts.notifier",
     "contracts.gc",
+    "contracts.kv",
 ]
 for m in MODULES:
     importlib.import_module(m)
@@ -35,6 +36,7 @@ COMMON_ASSUMPTIONS = ["A1", "A6", "A7"]
 
 _TB = ["z3 SMT solver (cvc5 for string queries z3 leaves open)", "pyvc VC generator (/verif/pyvc)", "CPython ast module"]
 PROPERTIES = {
+    "C10": {"level": "proof", "trusted_base": _TB, "assumptions": ["EV", "LMDB"]},
     "C17": {"level": "proof", "trusted_base": _TB, "assumptions": ["A3", "GCSQL", "SQL"]},
     "C20": {"level": "proof", "trusted_base": _TB, "assumptions": ["TCP", "A4", "EV"]},
     "C01": {"level": "proof", "trusted_base": _TB, "assumptions": ["REPL", "SQL"]},
